@@ -24,16 +24,22 @@ def check(rep, tier, seed):
     for k in range(nfiles):
         nl = rng.choice([1, 2, 2, 3, 3, 4, 5, 8, 12])
         data, Ns, kinds, used = b"", [], [], set()
+        serials = set()          # serial numbers must be unique within a physical stream (Ogg framing rule)
         for li in range(nl):
             d = None
             if rng.chance(1, 4):
                 j = rng.below(len(enc))
-                if j not in used and enc[j]:
+                if j not in used and enc[j] and (specs[j][0] & 0xffffffff) not in serials:
                     used.add(j)
                     d, N = enc[j], specs[j][4]
+                    serials.add(specs[j][0] & 0xffffffff)
                     kinds.append("enc")
             if d is None:
-                d, m = vfgen.handmade_link(rng, rng.choice([7000, 7000, 0x7fff8000, 0x80000000, 0xffe00000]) + (k * 16 + li) % 30000, small=True)
+                ser = rng.choice([7000, 7000, 0x7fff8000, 0x80000000, 0xffe00000]) + (k * 16 + li) % 30000
+                while (ser & 0xffffffff) in serials:
+                    ser += 100003
+                serials.add(ser & 0xffffffff)
+                d, m = vfgen.handmade_link(rng, ser, small=True)
                 N = m["N"]
                 kinds.append("hand")
             data += d
